@@ -173,6 +173,23 @@ def support_obs(hs, qrng):
             out[name] = fn()
         except Exception as e:  # noqa
             out[name] = 'err:' + errclass(e) + ':' + str(e)[:80]
+    def kids():
+        res = []
+        for l in range(L):
+            if not funcs[l]:
+                res.append(None)
+                continue
+            fs = sorted(funcs[l])
+            e = {}
+            if l + 1 < L:
+                e['children'] = tl(hs.hmesh.function_children(l, fs))
+                e['grandchildren'] = tl(hs.hmesh.function_grandchildren(l, fs, L - 1))
+            if l >= 1:
+                e['parents'] = tl(hs.hmesh.function_parents(l, fs))
+                e['grandparents'] = tl(hs.hmesh.function_grandparents(l, fs, 0))
+            res.append(e)
+        return res
+    guard('kids', kids)
     guard('all', lambda: dl(hs.compute_supports([sorted(a) for a in hs.actfun])))
     guard('funcs_res', lambda: dl(hs.compute_supports([sorted(x) for x in funcs])))
     guard('cells_res', lambda: dl(hs.hmesh.hmesh_cells([sorted(x) for x in cells])))
